@@ -4,7 +4,7 @@ Executable value-level model of GF(p) / GF(p²)=GF(p)[i]/(i²+1) over `Nat` with
 
 Scope: exactly the operations of src/gf/ref/gfx/{fp.c,fp2.c} that the basis generator (C10) and the
 pairing/dlog layer (C11) use, at the level of *values* (canonical representatives in [0,p)), not limbs:
-`fp_is_square` (Euler: a^((p-1)/2) == 1, hence `false` at 0 like the ref code), `fp_sqrt`
+`fp_is_square` (Euler: a^((p-1)/2) == 1, or a = 0 — the ref code after fix 59953ae), `fp_sqrt`
 (a^((p+1)/4), negated when the canonical representative is odd), `fp_inv` (a^(p-2)), `fp2_is_square`
 (norm criterion), `fp2_inv`, `fp2_sqrt` (as coded, incl. its sign management), Montgomery decoding.
 The limb level is C07's business; this file is tied to the C by the C10/C11 correspondence harness.
@@ -66,8 +66,8 @@ def fneg (p a : Nat) : Nat := (p - a % p) % p
 def fmul (p a b : Nat) : Nat := a * b % p
 /-- `fp_inv`: a^(p-2) (0 ↦ 0) -/
 def finv (p a : Nat) : Nat := powMod a (p - 2) p
-/-- `fp_is_square` of the ref back-end: a^((p-1)/2) == 1 (so `false` at 0) -/
-def fIsSquare (p a : Nat) : Bool := powMod a ((p - 1) / 2) p == 1 % p
+/-- `fp_is_square` of the ref back-end (after fix 59953ae): a^((p-1)/2) == 1, or a == 0 -/
+def fIsSquare (p a : Nat) : Bool := powMod a ((p - 1) / 2) p == 1 % p || a % p == 0
 /-- `fp_sqrt`: a^((p+1)/4), negated if the canonical representative is odd -/
 def fsqrt (p a : Nat) : Nat :=
   let r := powMod a ((p + 1) / 4) p
